@@ -5,6 +5,7 @@
 //       predKind: kf ukfa ukfg draw gpfkf draw2 (DrawParticles(state model, exogenous model))      corrKind: kfc ukfc (Gaussian) | boot gpfc (particle)
 //       op: L:<name>:<0|1>  (L = F filter, P prediction, C correction, M state model; ~ = empty name)
 //           p  predict on the running belief      c  correct on the running belief
+//           H  hand-over: prediction and correction objects are move-constructed into new ones, held by a new filter
 //   -> init/<flags>/<P>/<C>  then per op  r<1|0|T|E>/<flags>/<P>/<C>  |  p/<P>  |  c/<C>
 //
 // flags: prediction().is_skipping(), state model is_skipping(), exogenous model is_skipping() or '-'.
@@ -202,17 +203,17 @@ static std::string pick(const std::vector<std::pair<std::string, bool>>& hits) {
 
 // ---------------------------------------------------------------- Gaussian filter under test
 struct GaussCase {
-    Data13 d; bool exo; HGF filt;
+    Data13 d; bool exo; std::string pk, ck; std::unique_ptr<HGF> fp;
     std::unique_ptr<GaussianPrediction> twin_fx, twin_fxexo; std::unique_ptr<GaussianCorrection> twin_c;
     GaussianMixture cur;
     GaussCase(const std::string& pk, bool exo_, const std::string& ck, uint64_t seed, long n, long k)
-        : d(seed, n, k), exo(exo_), filt(mkGPred(pk, d, exo_), mkGCorr(ck, d)),
+        : d(seed, n, k), exo(exo_), pk(pk), ck(ck), fp(new HGF(mkGPred(pk, d, exo_), mkGCorr(ck, d))),
           twin_fx(mkGPred(pk, d, false)), twin_fxexo(mkGPred(pk, d, true)), twin_c(mkGCorr(ck, d)), cur(k, n) {
         Rng r(seed ^ 0x55aa); fillGM(cur, r);
     }
     std::string flags() {
-        StateModel& sm = filt.prediction().getStateModel();
-        std::string s; s += filt.prediction().is_skipping() ? '1' : '0'; s += sm.is_skipping() ? '1' : '0';
+        StateModel& sm = fp->prediction().getStateModel();
+        std::string s; s += fp->prediction().is_skipping() ? '1' : '0'; s += sm.is_skipping() ? '1' : '0';
         s += sm.have_exogenous_model() ? (sm.exogenous_model().is_skipping() ? '1' : '0') : '-';
         return s;
     }
@@ -220,7 +221,7 @@ struct GaussCase {
         ++g_step;
         GaussianMixture in = cur, out(cur.components, cur.dim), r1(cur.components, cur.dim), r2(cur.components, cur.dim);
         poisonGM(out); poisonGM(r1); poisonGM(r2);
-        filt.prediction().predict(cur, out);
+        fp->prediction().predict(cur, out);
         bool in_same = sameGM(in, cur);
         twin_fx->predict(in, r1); twin_fxexo->predict(in, r2);
         std::string lab = pick({{"id", sameGM(out, in)}, {"fx", sameGM(out, r1)}, {"fxexo", sameGM(out, r2)}});
@@ -231,7 +232,7 @@ struct GaussCase {
     std::string correct(bool advance) {
         GaussianMixture in = cur, out(cur.components, cur.dim), r1(cur.components, cur.dim);
         poisonGM(out); poisonGM(r1);
-        filt.correction().correct(cur, out);
+        fp->correction().correct(cur, out);
         bool in_same = sameGM(in, cur);
         twin_c->correct(in, r1);
         std::string lab = pick({{"id", sameGM(out, in)}, {"full", sameGM(out, r1)}});
@@ -239,25 +240,34 @@ struct GaussCase {
         if (advance) cur = out;
         return lab;
     }
-    bool skipF(const std::string& nm, bool on) { return filt.skip(nm, on); }
-    bool skipP(const std::string& nm, bool on) { return filt.prediction().skip(nm, on); }
-    bool skipC(bool on) { return filt.correction().skip(on); }
-    bool skipM(const std::string& nm, bool on) { return filt.prediction().getStateModel().skip(nm, on); }
+    bool skipF(const std::string& nm, bool on) { return fp->skip(nm, on); }
+    bool skipP(const std::string& nm, bool on) { return fp->prediction().skip(nm, on); }
+    bool skipC(bool on) { return fp->correction().skip(on); }
+    bool skipM(const std::string& nm, bool on) { return fp->prediction().getStateModel().skip(nm, on); }
+    // hand the steps over: move-construct new prediction / correction objects from the filter's and build a new filter
+    void handover() {
+        std::unique_ptr<GaussianPrediction> np; std::unique_ptr<GaussianCorrection> nc;
+        if (pk == "kf") np.reset(new KFPrediction(std::move(dynamic_cast<KFPrediction&>(fp->prediction()))));
+        else np.reset(new UKFPrediction(std::move(dynamic_cast<UKFPrediction&>(fp->prediction()))));
+        if (ck == "kfc") nc.reset(new KFCorrection(std::move(dynamic_cast<KFCorrection&>(fp->correction()))));
+        else nc.reset(new UKFCorrection(std::move(dynamic_cast<UKFCorrection&>(fp->correction()))));
+        fp.reset(new HGF(std::move(np), std::move(nc)));
+    }
 };
 
 // ---------------------------------------------------------------- particle filter under test
 struct PartCase {
-    Data13 d; bool exo; std::string pk, ck; HPF filt;
+    Data13 d; bool exo; std::string pk, ck; std::unique_ptr<HPF> fp;
     std::unique_ptr<PFPrediction> twin_fx, twin_fxexo; std::unique_ptr<PFCorrection> twin_c;
     ParticleSet cur;
     PartCase(const std::string& pk_, bool exo_, const std::string& ck_, uint64_t seed, long n, long k)
-        : d(seed, n, k), exo(exo_), pk(pk_), ck(ck_), filt(mkPPred(pk_, d, exo_), mkPCorr(ck_, d, (unsigned)seed)),
+        : d(seed, n, k), exo(exo_), pk(pk_), ck(ck_), fp(new HPF(mkPPred(pk_, d, exo_), mkPCorr(ck_, d, (unsigned)seed))),
           twin_fx(mkPPred(pk_ == "draw2" ? "draw" : pk_, d, false)), twin_fxexo(mkPPred(pk_ == "draw2" ? "draw" : pk_, d, true)), twin_c(mkPCorr(ck_, d, (unsigned)seed)), cur(k, n) {
         Rng r(seed ^ 0x55aa); fillPS(cur, r);
     }
     std::string flags() {
-        StateModel& sm = filt.prediction().getStateModel();
-        std::string s; s += filt.prediction().is_skipping() ? '1' : '0'; s += sm.is_skipping() ? '1' : '0';
+        StateModel& sm = fp->prediction().getStateModel();
+        std::string s; s += fp->prediction().is_skipping() ? '1' : '0'; s += sm.is_skipping() ? '1' : '0';
         s += sm.have_exogenous_model() ? (sm.exogenous_model().is_skipping() ? '1' : '0') : '-';
         return s;
     }
@@ -266,7 +276,7 @@ struct PartCase {
         long k = cur.components, n = cur.dim;
         ParticleSet in = cur, out(k, n), r1(k, n), r2(k, n);
         poisonPS(out); poisonPS(r1); poisonPS(r2);
-        filt.prediction().predict(cur, out);
+        fp->prediction().predict(cur, out);
         bool in_same = samePS(in, cur);
         twin_fx->predict(in, r1); twin_fxexo->predict(in, r2);
         std::vector<std::pair<std::string, bool>> hits = {{"id", samePS(out, in)}, {"fx", samePS(out, r1)}, {"fxexo", samePS(out, r2)}};
@@ -292,7 +302,7 @@ struct PartCase {
         long k = cur.components, n = cur.dim;
         ParticleSet in = cur, out(k, n), r1(k, n);
         poisonPS(out); poisonPS(r1);
-        filt.correction().correct(cur, out);
+        fp->correction().correct(cur, out);
         bool in_same = samePS(in, cur);
         std::string lab;
         if (samePS(out, in)) lab = "id";       // the twin is run only when the step under test ran, so that
@@ -304,10 +314,18 @@ struct PartCase {
         if (advance) cur = out;
         return lab;
     }
-    bool skipF(const std::string& nm, bool on) { return filt.skip(nm, on); }
-    bool skipP(const std::string& nm, bool on) { return filt.prediction().skip(nm, on); }
-    bool skipC(bool on) { return filt.correction().skip(on); }
-    bool skipM(const std::string& nm, bool on) { return filt.prediction().getStateModel().skip(nm, on); }
+    bool skipF(const std::string& nm, bool on) { return fp->skip(nm, on); }
+    bool skipP(const std::string& nm, bool on) { return fp->prediction().skip(nm, on); }
+    bool skipC(bool on) { return fp->correction().skip(on); }
+    bool skipM(const std::string& nm, bool on) { return fp->prediction().getStateModel().skip(nm, on); }
+    void handover() {
+        std::unique_ptr<PFPrediction> np; std::unique_ptr<PFCorrection> nc;
+        if (pk == "gpfkf") np.reset(new GPFPrediction(std::move(dynamic_cast<GPFPrediction&>(fp->prediction()))));
+        else np.reset(new DrawParticles(std::move(dynamic_cast<DrawParticles&>(fp->prediction()))));
+        if (ck == "boot") nc.reset(new BootstrapCorrection(std::move(dynamic_cast<BootstrapCorrection&>(fp->correction()))));
+        else nc.reset(new GPFCorrection(std::move(dynamic_cast<GPFCorrection&>(fp->correction()))));
+        fp.reset(new HPF(std::move(np), std::move(nc)));
+    }
 };
 
 template <class Case> static std::string runOps(Case& cs, Toks& t) {
@@ -317,6 +335,7 @@ template <class Case> static std::string runOps(Case& cs, Toks& t) {
         std::string op = t.tok();
         if (op == "p") { o.s("p/" + cs.predict(true)); continue; }
         if (op == "c") { o.s("c/" + cs.correct(true)); continue; }
+        if (op == "H") { cs.handover(); o.s("h/" + cs.flags() + "/" + cs.predict(false) + "/" + cs.correct(false)); continue; }
         size_t a = op.find(':'), b = op.rfind(':');
         if (a != 1 || b == a || b + 2 != op.size()) throw vh::BadArgs("op:" + op);
         char lvl = op[0]; std::string nm = op.substr(a + 1, b - a - 1); if (nm == "~") nm = "";
